@@ -74,6 +74,8 @@ pub struct Runner<'a> {
     pub last_count: usize,
     /// property every failure is additionally attributed to (C18 while continuing after an injected panic)
     pub also: Option<&'static str>,
+    /// emit raw arena snapshots for the arena-level model instead of abstract states
+    pub raw: bool,
 }
 
 pub fn silent_panics() {
@@ -87,7 +89,7 @@ impl<'a> Runner<'a> {
         Runner {
             out, coll: coll.to_string(), variant, cap, real: make(coll, cap, variant), refm: RefMap::new(cap),
             twin: None, ops: vec![], hid, emit: true, oracles: true, handles: BTreeMap::new(), dead: false,
-            expiring: coll == "key" || coll == "klist", is_list: coll.ends_with("list"), suite: suite.to_string(), last_count: 0, also: None,
+            expiring: coll == "key" || coll == "klist", is_list: coll.ends_with("list"), suite: suite.to_string(), last_count: 0, also: None, raw: suite.starts_with("arena") || suite.starts_with("exh-a"),
         }
     }
 
@@ -122,7 +124,7 @@ impl<'a> Runner<'a> {
     pub fn step(&mut self, op: &Op, expect_key: Option<i64>) -> String {
         if self.dead { return "DEAD".into(); }
         *self.out.op_counts.entry(format!("{}.{}", self.coll, op.name)).or_insert(0) += 1;
-        let pre_state = if self.emit { Some(self.real.state()) } else { None };
+        let pre_state = if self.emit { Some(if self.raw { self.real.raw().ok_or(String::from("no raw state")) } else { self.real.state() }) } else { None };
         let pre_entries = self.real.entries().unwrap_or_default();
         self.ops.push(op.clone());
         if self.out.flush {
@@ -165,6 +167,13 @@ impl<'a> Runner<'a> {
         if self.emit {
             let pre = match pre_state.unwrap() { Ok(s) => s, Err(e) => format!("ABSFAIL {}", e) };
             let post = match &post_state { Ok(s) => s.clone(), Err(e) => format!("ABSFAIL {}", e) };
+            if self.raw {
+                let post = self.real.raw().unwrap_or_default();
+                writeln!(self.out.req, "a{} {} | {} | {}", self.coll, op.text(), pre, self.real.dflt()).unwrap();
+                writeln!(self.out.exp, "out={} | st={} | tr=", out, post).unwrap();
+                writeln!(self.out.ctx, "H{} {}", self.hid, self.ops.len() - 1).unwrap();
+                self.out.lines += 1;
+            } else {
             writeln!(self.out.req, "{} {} | {}", self.coll, op.text(), pre).unwrap();
             match self.real.abs_note() {
                 Some(n) => writeln!(self.out.exp, "out={} | st={} | tr={} | abs={}", out, post, tr, n).unwrap(),
@@ -172,6 +181,7 @@ impl<'a> Runner<'a> {
             }
             writeln!(self.out.ctx, "H{} {}", self.hid, self.ops.len() - 1).unwrap();
             self.out.lines += 1;
+            }
         }
         if self.dead { return out; }
         if self.oracles {
